@@ -98,6 +98,8 @@ class HEvent:
         self.cond_regs = []         # conditions registered on this event at their construction
         self.build_step = None
         self.build_now = None
+        self.abandoned = []         # pids interrupted away from this event before it was processed
+        self.decision = None
 
 
 class PRec:
@@ -118,6 +120,7 @@ class PRec:
         self.intr_fifo = []
         self.init_occ = None
         self.interrupted_count = 0
+        self.n_intr_instr = 0
 
 
 class H:
@@ -149,11 +152,27 @@ class H:
         self.stats[k] = self.stats.get(k, 0) + n
 
 
-def make_tracing(base):
+def make_tracing(base, peek=False):
     class Tracing(base):
+        _peek_mode = peek
+
         def __init__(self, *a, **k):
             self.h = H()
             super().__init__(*a, **k)
+            if self._peek_mode and not isinstance(getattr(self, "_queue", None), list):
+                raise HarnessError("Environment._queue is not a list: peek-mode tracing impossible")
+
+        def _head_occ(self):
+            """zero-footprint identification of the occurrence the next step() will process: the head of the agenda.
+            (Trusted; cross-checked by the resume-source clause: whoever is resumed must wait on that event.)"""
+            head = self._queue[0]
+            ev = head[-1] if isinstance(head, tuple) else None
+            if not isinstance(ev, Event):
+                raise HarnessError("agenda entries are not (..., Event) tuples")
+            occ = self.h.by_event.get(id(ev))
+            if occ is None or occ.event is not ev:
+                return None
+            return occ
 
         def schedule(self, event, priority=1, delay=0):
             h = self.h
@@ -184,15 +203,16 @@ def make_tracing(base):
             if hev is not None and hev.ev is event:
                 occ.hev = hev
                 hev.occ = occ
-            env = self
+            if not self._peek_mode:
+                env = self
 
-            def probe(ev, occ=occ):
-                env._probe(occ)
+                def probe(ev, occ=occ):
+                    env._probe(occ)
 
-            cbs = event.callbacks
-            if cbs is None:
-                raise HarnessError("scheduled event has no callbacks list")
-            cbs.insert(0, probe)
+                cbs = event.callbacks
+                if cbs is None:
+                    raise HarnessError("scheduled event has no callbacks list")
+                cbs.insert(0, probe)
             super().schedule(event, priority, delay)
 
         def _probe(self, occ):
@@ -203,7 +223,7 @@ def make_tracing(base):
                 h.flag("C01.once", f"occurrence #{occ.seq} ({occ.kind}) processed twice", "C01.once")
                 return
             occ.proc_step = h.step_no
-            occ.proc_now = self.now
+            occ.proc_now = None if self._peek_mode else self.now
             h.cur_occ = occ
             # reference agenda: the occurrence processed must be the minimum of what is pending
             while h.pending and h.pending[0][1].proc_step is not None and h.pending[0][1] is not occ:
@@ -219,9 +239,6 @@ def make_tracing(base):
                            f"C01.order/{occ.kind}-before-{exp.kind}")
                 else:
                     heapq.heappop(h.pending)
-            if self.now != occ.due:
-                h.flag("C01.exact_time", f"occurrence #{occ.seq} {occ.kind} due {occ.due!r} processed at now={self.now!r}",
-                       "C01.exact_time")
             if occ.cls == "N":
                 h.n_norm_processed += 1
             hev = occ.hev
@@ -231,7 +248,7 @@ def make_tracing(base):
                     hev = None
             if hev is not None:
                 hev.processed_step = h.step_no
-                hev.processed_now = self.now
+                hev.processed_now = occ.proc_now
                 hev.snapshot = list(hev.W)
                 hev.W = []
 
@@ -244,6 +261,10 @@ def make_tracing(base):
             h.step_probes = 0
             h.in_step = True
             exc = None
+            if self._peek_mode and pk != inf:
+                occ = self._head_occ()
+                if occ is not None:
+                    self._probe(occ)
             try:
                 super().step()
             except BaseException as e:
@@ -261,6 +282,14 @@ def make_tracing(base):
                 if exc is None:
                     h.flag("harness", "a step processed an event that never went through schedule()", "harness/unseen")
                 return
+            occ = h.cur_occ
+            if exc is None or occ.event.callbacks is None:
+                occ.proc_now = now
+                if occ.hev is not None:
+                    occ.hev.processed_now = now
+                if now != occ.due:
+                    h.flag("C01.exact_time", f"occurrence #{occ.seq} {occ.kind} due {occ.due!r} processed at now={now!r}",
+                           "C01.exact_time")
             if not (now >= before):
                 h.flag("C01.monotone", f"now went from {before!r} to {now!r}", "C01.monotone")
             if now != pk:
@@ -274,7 +303,8 @@ def make_tracing(base):
     return Tracing
 
 
-TracingEnvironment = make_tracing(Environment)
+TracingEnvironment = make_tracing(Environment, peek=True)
+ProbeTracingEnvironment = make_tracing(Environment, peek=False)
 TracingRealtimeEnvironment = make_tracing(RealtimeEnvironment)
 
 
@@ -311,7 +341,9 @@ class VirtualClock:
 class Interp:
     """Interprets a program on a tracing environment."""
 
-    def __init__(self, program, env, clock=None, on_cond=None):
+    def __init__(self, program, env, clock=None, on_cond=None, skip=None):
+        self.skip = skip or set()
+        self.refused = set()
         self.p = program
         self.env = env
         self.h = env.h
@@ -378,6 +410,11 @@ class Interp:
                 h.flag("C04.first_statement", f"P{P.pid} initialised without running its first statement",
                        "C04.first_statement")
         hev = occ.hev
+        if hev is not None:
+            for apid in hev.abandoned:
+                A = self.procs[apid]
+                if A.alive and A.waiting is not None and A.waiting is not hev:
+                    h.bump("old_target_fired_elsewhere")
         if hev is not None and hev.snapshot is not None:
             if hev.delivered != hev.snapshot:
                 h.flag("C02.all_waiters_once_in_order",
@@ -419,7 +456,7 @@ class Interp:
     def _ref_proc(self, j, pid, allow_self):
         n = len(self.procs)
         t = j % n
-        if t == pid and not allow_self:
+        if t == pid and (not allow_self or (j // n) % 2 == 0):
             if n == 1:
                 return None
             t = (t + 1) % n
@@ -587,6 +624,11 @@ class Interp:
         h = self.h
         should_refuse = (not T.alive) or T.pid == pid
         n_before = len(h.occs)
+        P = self.procs[pid]
+        P.n_intr_instr += 1
+        key = (pid, pc, P.n_intr_instr)
+        if key in self.skip:
+            return
         try:
             T.process.interrupt(cause)
         except RuntimeError:
@@ -595,6 +637,7 @@ class Interp:
             if len(h.occs) != n_before:
                 h.flag("C04.refuse", "refused interrupt still scheduled something", "C04.refuse/effect")
             self.log(pid, pc, "interrupt-refused", T.pid)
+            self.refused.add(key)
             h.bump("intr_refused_self" if T.pid == pid else "intr_refused_dead")
         except BaseException as e:
             if isinstance(e, WatchdogTrip):
@@ -716,6 +759,7 @@ class Interp:
         if reg is not None:
             if reg in hev.W:
                 hev.W.remove(reg)
+                hev.abandoned.append(pid)
             elif hev.snapshot is not None and reg in hev.snapshot and reg not in hev.delivered:
                 # target is being processed in this very step?? impossible: this step is the interruption's
                 h.flag("C04.harness", "interrupt delivered during target's step", "harness/intr-in-target-step")
@@ -744,6 +788,20 @@ class Interp:
                 if reg not in snap:
                     h.flag("C02.all_waiters_once_in_order", f"P{pid} invoked by {hev.name} without being registered",
                            "C02.all_waiters_once_in_order/unregistered")
+        if hev.kind == "C":
+            dec = eval_cond(hev)
+            if dec is None:
+                h.flag("C05.early", f"P{pid} resumed by {hev.name} whose predicate does not hold yet", "C05.early")
+                hev.expect = outcome
+            else:
+                hev.decision = dec
+                if dec[2][0] == "ok":
+                    hev.expect = outcome if outcome[0] == "ok" else ("ok", "<ConditionValue>")
+                else:
+                    hev.expect = dec[2]
+                if self.env.now != dec[1]:
+                    h.flag("C05.instant", f"{hev.name} decided at t={dec[1]!r} but waiter resumed at t={self.env.now!r}",
+                           "C05.instant")
         if outcome != hev.expect:
             h.flag("C02.value", f"P{pid} at pc {pc} received {outcome} from {hev.name}, expected {hev.expect}",
                    "C02.value/" + ("exc" if outcome[0] == "exc" or (hev.expect or ("",))[0] == "exc" else "ok"))
@@ -806,6 +864,54 @@ class Interp:
             return hev
 
         return build(tree)
+
+
+def eval_cond(hev):
+    """Reference evaluation of a condition from the harness's records of when its operands were processed.
+    Returns (decided_step, decided_now, outcome) or None while undecided. outcome = ('ok',) | ('exc', name, args)."""
+    mode, kids, pre = hev.tree
+    if not kids:
+        return (hev.build_step, hev.build_now, ("ok",))
+    checks = []
+    for i, (k, was) in enumerate(zip(kids, pre)):
+        if was:
+            out = node_outcome(k)
+            checks.append(((hev.build_step, 0, i), hev.build_now, out))
+        elif k.processed_step is not None:
+            out = node_outcome(k)
+            checks.append(((k.processed_step, 1, i), k.processed_now, out))
+    checks.sort(key=lambda c: c[0])
+    count = 0
+    for key, now, out in checks:
+        count += 1
+        if out is None:
+            raise HarnessError("processed operand without outcome")
+        if out[0] == "exc":
+            return (key[0], now, out)
+        if (mode == "all" and count == len(kids)) or (mode == "any" and count > 0):
+            return (key[0], now, ("ok",))
+    return None
+
+
+def node_outcome(k):
+    if k.kind == "C":
+        d = eval_cond(k)
+        return None if d is None else d[2]
+    e = k.expect
+    if e is None:
+        return None
+    return ("ok",) if e[0] == "ok" else e
+
+
+def cond_leaves(hev):
+    mode, kids, pre = hev.tree
+    out = []
+    for k in kids:
+        if k.kind == "C" and k.tree is not None:
+            out.extend(cond_leaves(k))
+        else:
+            out.append(k)
+    return out
 
 
 # -------------------------------------------------------------------------------------- drivers
@@ -923,13 +1029,13 @@ def _judge_raise(env, interp, e):
     return ("raised", got[1], got[2])
 
 
-def run_program(program, on_cond=None, env_cls=None, env_kwargs=None, clock=None):
+def run_program(program, on_cond=None, env_cls=None, env_kwargs=None, clock=None, skip=None):
     """build env + interpreter, run to exhaustion with the harness loop; returns RunResult"""
     env_cls = env_cls or TracingEnvironment
     kw = dict(env_kwargs or {})
     kw.setdefault("initial_time", program.get("init", 0))
     env = env_cls(**kw)
-    interp = Interp(program, env, clock=clock, on_cond=on_cond)
+    interp = Interp(program, env, clock=clock, on_cond=on_cond, skip=skip)
     res = RunResult()
     res.h = env.h
     res.interp = interp
